@@ -5,6 +5,8 @@
 use std::cell::Cell;
 
 pub const MARKER: &str = "VERIF-FUEL";
+/// Marker of the bounded-liveness oracle (see `arm_progress`).
+pub const STALL: &str = "VERIF-NO-PROGRESS";
 
 thread_local! {
     static DEPTH: Cell<u32> = const { Cell::new(0) };
@@ -12,6 +14,19 @@ thread_local! {
     static MAX_DEPTH: Cell<u32> = const { Cell::new(1500) };
     static MAX_LOOPS: Cell<u64> = const { Cell::new(100_000) };
     static CALLS: Cell<u64> = const { Cell::new(0) };
+    static GRACE: Cell<Option<u64>> = const { Cell::new(None) };
+}
+
+/// Bounded liveness: from now on at most `grace` further loop iterations may start on this OS
+/// thread (all tasks of one simulated execution share it). The simulator arms this at the moment
+/// after which every polling loop of the scenario must see its exit condition at its next
+/// evaluation; exceeding the grace is reported as a stall (marker `STALL`), not as a fuel stop.
+pub fn arm_progress(grace: u64) {
+    GRACE.with(|g| g.set(Some(grace)));
+}
+
+pub fn is_stall_panic(msg: &str) -> bool {
+    msg.contains(STALL)
 }
 
 pub struct CallGuard(());
@@ -49,6 +64,13 @@ pub fn enter_call() -> CallGuard {
 
 /// Called once per iteration of `loop`.
 pub fn loop_tick() {
+    if let Some(g) = GRACE.with(|g| g.get()) {
+        if g == 0 {
+            GRACE.with(|g| g.set(None));
+            panic!("{STALL}: a loop keeps iterating although the condition it waits for has been established");
+        }
+        GRACE.with(|c| c.set(Some(g - 1)));
+    }
     let n = LOOPS.with(|l| {
         l.set(l.get() + 1);
         l.get()
@@ -65,6 +87,7 @@ pub fn reset(max_depth: u32, max_loops: u64) {
     CALLS.with(|c| c.set(0));
     MAX_DEPTH.with(|m| m.set(max_depth));
     MAX_LOOPS.with(|m| m.set(max_loops));
+    GRACE.with(|g| g.set(None));
 }
 
 pub fn is_fuel_panic(msg: &str) -> bool {
